@@ -80,6 +80,7 @@ struct Rcv {
 struct LeafState {
   int started = 0;
   int completed = 0;
+  int completing = 0;            // completions that have deregistered their stop callback but not yet signalled
   bool stop_seen = false;        // the leaf's stop callback fired (or stop was already requested at start)
   bool stop_at_start = false;
   int ops_alive = 0, ops_made = 0;
@@ -88,7 +89,7 @@ struct LeafState {
   void (*fire)(void*, char, int) = nullptr;
   const char* props = "C01,C02";
   std::string name = "leaf";
-  bool pending() const { return started > completed; }
+  bool pending() const { return started > completed + completing; }
 };
 
 template <class... Vs>
@@ -119,8 +120,10 @@ struct LeafSenderT {
         auto* self = static_cast<Op*>(p);
         if (self->done_) vmcrt::fail(self->st->props, "leaf-twice", "harness error: leaf completed twice");
         self->done_ = true;
+        LeafState* ls = self->st;
+        ++ls->completing;
         self->cb.reset();
-        ++self->st->completed;
+        --ls->completing; ++ls->completed;
         if (ch == 'V') {
           if constexpr (sizeof...(Vs) == 1) unifex::set_value(std::move(self->r), v);
           else unifex::set_value(std::move(self->r));
